@@ -111,7 +111,8 @@ def cases(draw, tier="quick"):
     nlev = spec["mesh"]["nlev"]
     return dict(spec=spec, recipe=recipe, kept=kept, serial=draw(st.booleans()),
                 cli=(kind != "callable") and draw(st.sampled_from([False, False, True])),
-                sched=dict(exec=[draw(st.lists(st.integers(0, 7), max_size=4)) for _ in range(nlev)], lazy=draw(st.booleans())))
+                sched=dict(exec=[draw(st.lists(st.integers(0, 7), max_size=4)) for _ in range(nlev)],
+                           comp=[draw(st.lists(st.integers(0, 7), max_size=4)) for _ in range(nlev)], lazy=draw(st.booleans())))
 
 
 def compact(case):
